@@ -25,6 +25,18 @@ Theorem subtype_is_rtc : forall G sub sup,
   (sub = sup \/ exists m, reach G sub m /\ hits G sup m).
 Proof. exact SubProofs.is_sub_type_of_spec. Qed.
 
+(** the graph that [get_super_types_iter] shows to every consumer is acyclic, whatever is declared:
+    no class reaches itself through effective super edges.  (The per-edge reset of the visited set
+    matters: with one set shared by all parent edges of a class the braid of [braid_example] keeps the
+    cycle A -> B -> A.) *)
+Theorem effective_supers_acyclic : forall G a, ~ clos_trans N (edge G) a a.
+Proof. exact SubProofs.effective_supers_acyclic. Qed.
+
+Example braid_example :
+  eff_supers braid_world 1 = Some (Some []) /\ eff_supers braid_world 3 = Some (Some []) /\
+  eff_supers_shared braid_world 1 = Some [TRef 3] /\ eff_supers_shared braid_world 3 = Some [TRef 1].
+Proof. exact Proofs.braid_example. Qed.
+
 (** the type-check recursion is at most MAX_TYPE_CHECK_LEVEL + 1 deep on ANY alias / class graph and any
     pair of types: with fuel for the levels the guard leaves, the model never runs out of fuel — a
     recursion that would go deeper answers [Err Recursion] (TypeCheckFailReason::TypeRecursion) *)
